@@ -219,7 +219,7 @@ Print Assumptions C12_ctl_failure_reported_fixed.
    Non-vacuity: a history that leaves the start-up window, changes files, meets a failed reload
    and a failed API call, and the hypotheses of the theorems above hold on it. *)
 Definition ex_res (k : rk) (n : string) (v : Z) : res :=
-  {| r_kind := k; r_name := n; r_ver := v; r_apis := [[(n ++ "_u0")%string; (n ++ "_u1")%string]]; r_weights := 0 |}.
+  {| r_kind := k; r_name := n; r_ver := v; r_apis := [[(n ++ "_u0")%string; (n ++ "_u1")%string]]; r_weights := 0; r_pt := None |}.
 Definition ex_env : env := {| plus := true; ro := fails_at [1]; ao := fails_at [2]; fx := no_fixes |}.
 Definition ex_ops : list op :=
   [OAdd (ex_res KIng "default-a" 0); OEnable; OReloadForBatch true; OAdd (ex_res KVS "vs_default_v" 0);
